@@ -70,9 +70,10 @@ func verifIdentityCheck(root string) {
 	verif.Assert("round-trip", got == name)
 }
 
-// VerifIdentityTrailingSlashRoot: same with a trailing slash on the root or the
-// filesystem root itself (FINDINGS.md F1, fixed in /repo commit aa13958).
-func VerifIdentityTrailingSlashRoot() {
+// VerifFindingIdentityTrailingSlashRoot: same with a trailing slash on the root
+// or the filesystem root itself (FINDINGS.md F1, fixed in /repo commit aa13958;
+// kept under this name as the regression check of that fix).
+func VerifFindingIdentityTrailingSlashRoot() {
 	var root string
 	if verif.Choice("fs_root", 2) == 1 {
 		root = "/"
